@@ -11,7 +11,9 @@ Contract = postcondition of `Ombott.__call__` for a handler that reads `request.
                  the partial collections that stay readable after a refused access) is the COMPLETE data of a part that
                  was terminated by a delimiter in the body that was sent: oracle `multipart_spec.is_complete_part_data`
                  (blank line directly in front, delimiter CRLF--boundary directly behind, no delimiter inside).
-                 The "body that was sent" is the de-chunked payload, or the first Content-Length bytes of the stream.
+                 The "body that was sent" is the de-chunked payload (reference decoder /verif/spec/chunked_spec.py; no
+                 oracle and no E3 check when the chunked framing itself is illegal: that is C05's subject), or the first
+                 Content-Length bytes of the stream.
   (hang)         the runner's per-case alarm reports a case that does not finish.
 
 Nothing else is demanded (which malformed bodies are accepted and what they mean is left open by the statement).
@@ -22,6 +24,7 @@ import random
 
 from bounded.common import FragStream, make_environ, serve, chunk_encode, fail
 from spec import multipart_spec as ms
+from spec import chunked_spec as cs
 
 BOUND = ('multipart: 4 base forms (boundaries BND, X; text+file parts, UTF-8, delimiter look-alikes) as token lists '
          '[delimiter, CRLF, header block, blank line, data, ..., close-delimiter, CRLF]: every deletion / duplication / adjacent swap '
@@ -29,8 +32,8 @@ BOUND = ('multipart: 4 base forms (boundaries BND, X; text+file parts, UTF-8, de
          'padding, close-delimiter variants, 60 header-block variants: no name, no colon, empty value, non-UTF-8, lower case, '
          'unicode line separators, unbalanced quotes ...), truncation at EVERY offset (honest Content-Length, lying Content-Length, '
          'chunked payload, cut chunked wire), EVERY single-byte deletion, EVERY single-byte substitution by 10 bytes; all header '
-         'blocks of <=3 (quick) / <=4 (thorough) tokens over an 11-token alphabet; all byte strings of length <=4 (quick) / <=6 '
-         '(thorough) over {CR,LF,-,X,:,a} behind 4 well-formed prefixes; JSON: 75 listed bodies (invalid, non-object, non-UTF-8, '
+         'blocks of <=3 (quick) / <=4 (thorough) tokens over an 11-token alphabet; all byte strings of length <=5 (quick) / <=6 '
+         '(thorough) over {CR,LF,-,X,:,a} behind 5 well-formed prefixes; JSON: 75 listed bodies (invalid, non-object, non-UTF-8, '
          'UTF-16, deep nesting, huge numbers, oversized) and all strings <=3 (quick) / <=4 (thorough) over a 10-letter JSON alphabet; '
          'urlencoded: listed + all strings <=4/<=5 over {a,=,&,%,+,0xff}; every listed body also under the other content types '
          '(multipart with/without/with another boundary, urlencoded, json, text/plain, none); garbage chunked wires; seeded random '
@@ -252,7 +255,7 @@ def _gen(tier, seed):
             yield from spread(body, _mp_ctype('X'), 'hdr-small-scope', 1 if quick else 2, touches=['forms', 'catch', 'post'])
     # ---- 3. small scope: byte strings behind well-formed prefixes
     prefixes = [b'', b'--X', b'--X\r\n', b'--X\r\n' + _cd(b'name="a"') + b'\r\n\r\n', b'--X\r\n' + _cd(b'name="a"') + b'\r\n\r\nv\r\n--X']
-    for n in range(0, (4 if quick else 6) + 1):
+    for n in range(0, (5 if quick else 6) + 1):
         for t in itertools.product(b'\r\n-X:a', repeat=n):
             s = bytes(t)
             for p in prefixes:
@@ -390,7 +393,10 @@ def sent_payload(case):
     """the body that was sent, as the statement sees it; None when the framing itself is garbage (no oracle)."""
     body = case['body']
     if case['framing'] == 'ch':
-        return None if case['raw_wire'] else body
+        if not case['raw_wire']:
+            return body
+        ref = cs.decode(body)       # reference decoder (RFC 7230): only a legal wire has a payload to speak of
+        return ref.body if ref.kind == 'legal' else None
     cl = case['cl']
     if cl == 'auto':
         return body
@@ -501,6 +507,8 @@ FINDINGS = {
         lambda c, f: f['clause'] in _E1 and _is_mp(c) and _exc(f) == 'ValueError',
     'D5-multipart-empty-header-value-stopiteration':
         lambda c, f: f['clause'] in _E1 and _is_mp(c) and _exc(f) in ('StopIteration', 'RuntimeError'),
+    'D5-multipart-empty-header-block-unboundlocalerror':
+        lambda c, f: f['clause'] in _E1 and _is_mp(c) and _exc(f) == 'UnboundLocalError',
     'D5-multipart-non-utf8-unicodedecodeerror':
         lambda c, f: f['clause'] in _E1 and _is_mp(c) and _exc(f) == 'UnicodeDecodeError',
     'D5-json-invalid-is-500':
